@@ -69,7 +69,16 @@ pub const FAMILIES: &[&str] = &[
     "chain-into-header",
     "literal-1byte-labels",
     "dname-literal",
+    // hostile: structures beyond the per-name limits hidden in data the parser does not validate,
+    // referenced by many records (rejected early today; a lifted limit makes them quadratic)
+    "hostile-long-pointer-chain",
+    "hostile-long-label-run",
+    "hostile-pointer-ladder-with-labels",
+    "hostile-overlong-chain-soa",
 ];
+
+/// Families >= this index are expected to be rejected.
+pub const FIRST_HOSTILE: usize = 8;
 
 /// Build a member of an adversarial family of roughly `target_len` bytes.
 pub fn adversarial(rng: &mut Rng, fam: usize, target_len: usize) -> Vec<u8> {
@@ -149,6 +158,61 @@ pub fn adversarial(rng: &mut Rng, fam: usize, target_len: usize) -> Vec<u8> {
                     a.label(b"m");
                 }
                 a.root();
+                n += 1;
+            }
+            a.b[6..8].copy_from_slice(&n.to_be_bytes());
+            a.done()
+        }
+        8 | 9 | 10 | 11 => {
+            // a TXT record whose rdata hides: (8) a chain of k pointers each pointing at the previous one,
+            // (9) a run of k one-byte labels, (10) k segments "label + pointer to the previous segment",
+            // (11) like 8 but referenced from SOA records (two names each)
+            let budget = target_len.min(0x3f00);
+            let mut a = Asm::header(7, 0x8180, 1, 1, 0, 0);
+            a.question_q();
+            let hidden = (budget / 3).min(9000);
+            a.ptr(12).rrfix(T_TXT, 1, 0);
+            let rdlen_at = a.pos() - 2;
+            let rd = a.pos();
+            // anchor: a tiny valid name the structure finally resolves to
+            a.label(b"z").root();
+            let mut head = rd;
+            match fam {
+                8 | 11 => {
+                    let k = hidden / 2;
+                    for _ in 0..k {
+                        let here = a.pos();
+                        a.ptr(head);
+                        head = here;
+                    }
+                }
+                9 => {
+                    // labels must precede their terminator: emit the run, then jump to the anchor
+                    let k = hidden / 2;
+                    head = a.pos();
+                    for _ in 0..k {
+                        a.label(&[*rng.pick(b"abcdefgh")]);
+                    }
+                    a.ptr(rd);
+                }
+                _ => {
+                    let k = hidden / 4;
+                    for _ in 0..k {
+                        let here = a.pos();
+                        a.label(&[*rng.pick(b"abcdefgh")]).ptr(head);
+                        head = here;
+                    }
+                }
+            }
+            let rdlen = a.pos() - rd;
+            a.b[rdlen_at..rdlen_at + 2].copy_from_slice(&(rdlen as u16).to_be_bytes());
+            let mut n = 1u16;
+            while a.pos() + 40 < target_len && n < 65000 && head < 0x3fff {
+                if fam == 11 {
+                    a.ptr(head).rrfix(T_SOA, 1, 24).ptr(head).ptr(head).raw(&[0u8; 20]);
+                } else {
+                    a.ptr(head).rrfix(T_NS, 1, 2).ptr(head);
+                }
                 n += 1;
             }
             a.b[6..8].copy_from_slice(&n.to_be_bytes());
@@ -238,8 +302,12 @@ pub fn run(ctx: &mut Ctx) {
             let mut rng = Rng::for_case(ctx.seed, "c18-adv", fi as u64, sz as u64);
             let x = adversarial(&mut rng, fi, sz);
             if let Some(steps) = one(ctx, &x, fam) {
-                // the family must actually be accepted (otherwise it measures an early exit)
-                if lib_parse(&x).map(|r| r.is_ok()).unwrap_or(false) {
+                // a benign family must actually be accepted (otherwise it measures an early exit);
+                // hostile families are rejected today and only have to stay under the bound
+                if fi >= FIRST_HOSTILE {
+                    ctx.count(&format!("adv_hostile:{}", fam));
+                    pts.push(((x.len() as f64).ln(), (steps.max(1) as f64).ln()));
+                } else if lib_parse(&x).map(|r| r.is_ok()).unwrap_or(false) {
                     ctx.count(&format!("adv_accepted:{}", fam));
                     pts.push(((x.len() as f64).ln(), (steps.max(1) as f64).ln()));
                 } else {
